@@ -18,7 +18,7 @@ pub const ENTRY: Entry = Entry {
            every transition replays the history on a fresh display with virtual time advanced only by the delay source (worst case). \
            Key = (is_sleeping(), private driver state via hook, controller sleep state, pin levels). Invariants in every state: is_sleeping() == \
            controller sleep state == (last of init/sleep/wake was sleep); every call that sent sleep-in/out returned >= 120 ms after \
-           the command; no two sleep-in/out commands (including init's sleep-out) closer than 120 ms. Non-trivial = transitions that \
+           the command; no two sleep-in/out commands (including init's sleep-out) closer than 120 ms. Long runs: six repeating patterns of sleep / wake / tearing / clear over 1100 calls, checked after every call (hidden counters). Non-trivial = transitions that \
            sent a sleep-in or sleep-out command.",
     assumptions: &["virtual clock advanced only by DelayNs calls (worst case for every >= 120 ms clause)", "fault-free histories (faults: C12)"],
     run,
@@ -221,7 +221,69 @@ fn run(ctx: &Ctx) -> Part {
             }
         }
     }
-    let bounds = json!({"roots": n_roots, "actions": 8, "max_depth": 5});
+    // long runs (explicit horizon 1100 calls): the closure merges states that agree on everything observable, so a
+    // counter hidden inside the driver (calls since the last wake, ...) needs repetition, not breadth.  Patterns:
+    // sleep^n, wake^n, (sleep wake)^n, (sleep sleep wake)^n, (tearing sleep wake)^n - checked after every call.
+    {
+        let patterns: Vec<(&str, Vec<u32>)> = vec![("sleep*", vec![0]), ("wake*", vec![1]), ("(sleep wake)*", vec![0, 1]), ("(sleep sleep wake)*", vec![0, 0, 1]), ("(tearing sleep wake)*", vec![7, 0, 1]), ("(sleep clear wake wake)*", vec![0, 2, 1, 1])];
+        let lroots: Vec<Cfg> = sys.roots.iter().filter(|c| matches!(c.model, ModelId::Builtin(0) | ModelId::Builtin(12))).cloned().collect();
+        let jobs: Vec<(Cfg, usize)> = lroots.iter().flat_map(|c| (0..patterns.len()).map(move |p| (*c, p))).collect();
+        use rayon::prelude::*;
+        let a = jobs
+            .par_iter()
+            .fold(Acc::new, |mut acc, (cfg, pi)| {
+                let (name, pat) = &patterns[*pi];
+                let mut rig = Rig::new(cfg);
+                if !rig.init.is_ok() {
+                    return acc;
+                }
+                let mut want = false;
+                for step in 0..1100usize {
+                    let a = pat[step % pat.len()];
+                    let op = action_op(a);
+                    rig.reset_logs();
+                    let n_slp = rig.ctl.slp_events.len();
+                    let out = rig.apply(&op);
+                    match op {
+                        Op::Sleep => want = true,
+                        Op::Wake => want = false,
+                        _ => {}
+                    }
+                    acc.evaluations += 1;
+                    acc.transitions += 1;
+                    acc.count("long_run_calls", 1);
+                    let d = rig.dut.as_ref().unwrap();
+                    let now = rig.bd.borrow().now_ns;
+                    let mut bad: Option<(String, String)> = None;
+                    if !out.is_ok() {
+                        bad = Some((format!("{}/outcome", op.name()), format!("{out:?}")));
+                    } else if d.is_sleeping() != want {
+                        bad = Some(("sleep-flag/history".into(), format!("is_sleeping() = {} but the last of init/sleep/wake says {want}", d.is_sleeping())));
+                    } else if rig.ctl.sleeping != want {
+                        bad = Some(("sleep-flag/controller".into(), format!("controller sleep state {} but is_sleeping() = {}", rig.ctl.sleeping, d.is_sleeping())));
+                    } else if rig.ctl.slp_events.len() > n_slp && now - rig.ctl.slp_events.last().unwrap().1 < 120_000_000 {
+                        bad = Some((format!("{}/returned-too-early", op.name()), "the call returned less than 120 ms after its sleep command".into()));
+                    }
+                    if let Some((sig, m)) = bad {
+                        acc.violation(Violation {
+                            prop: ctx.prop.clone(),
+                            sig,
+                            msg: format!("pattern {name}, call #{} ({:?}): {m}", step + 1, op),
+                            case: json!({"kind": "c13", "variant": ctx.variant, "cfg": cfg, "actions": (0..=step).map(|s| pat[s % pat.len()]).collect::<Vec<u32>>()}),
+                        });
+                        break;
+                    }
+                }
+                acc
+            })
+            .reduce(Acc::new, Acc::merge);
+        let (st, tr) = (acc.states, acc.transitions);
+        acc = acc.merge(a);
+        acc.states = st;
+        acc.transitions = tr;
+        acc.traces = acc.evaluations;
+    }
+    let bounds = json!({"roots": n_roots, "actions": 8, "max_depth": 5, "long_runs": "6 patterns x 1100 calls"});
     let mut part = Part::new(ctx, acc, bounds, true, t0.elapsed().as_secs_f64());
     part.acc.n_outcomes = part.acc.states;
     part.require("transitions_sending_sleep_commands", 10);
